@@ -4,7 +4,7 @@ import json, subprocess, sys
 pid = sys.argv[1]
 n = sys.argv[2] if len(sys.argv) > 2 else "3"
 p = [json.loads(l) for l in open('/verif/properties.jsonl') if json.loads(l)['id'] == pid][0]
-wt = "/tmp/seed_" + pid.lower()
+wt = "/tmp/seed" + (sys.argv[3] if len(sys.argv) > 3 else "") + "_" + pid.lower()
 subprocess.run(["git", "-C", "/repo", "worktree", "add", "-q", "--detach", wt, "HEAD"], check=False)
 files = ", ".join(p['anchors']['files'])
 mech = "; ".join("%s (%s)" % (m.get('name'), m.get('where')) for m in p['anchors'].get('mechanism', []))
